@@ -209,54 +209,7 @@ func BuildAction(r *rec.Rec) (of.Action, error) {
 			a.SetRandom()
 		}
 		a.Flags = fl // combinations the setters refuse, and undefined bits, through the exported field
-		rp := r.U16("range_present")
-		order := r.Bytes("_order")
-		if len(order) != 6 {
-			order = []byte{0, 1, 2, 3, 4, 5}
-		}
-		if rp%5 == 2 { // a history in which every bound is first set to something else: the last call per bound counts
-			dummy := uint16(0x1234)
-			for _, k := range order {
-				if rp>>k&1 == 0 {
-					continue
-				}
-				switch k {
-				case 0:
-					a.SetRangeIPv4Min(net.IPv4(9, 9, 9, 9))
-				case 1:
-					a.SetRangeIPv4Max(net.IPv4(9, 9, 9, 10))
-				case 2:
-					a.SetRangeIPv6Min(net.ParseIP("2001:db8::1"))
-				case 3:
-					a.SetRangeIPv6Max(net.ParseIP("2001:db8::2"))
-				case 4:
-					a.SetRangeProtoMin(&dummy)
-				case 5:
-					a.SetRangeProtoMax(&dummy)
-				}
-			}
-		}
-		for _, k := range order {
-			if rp>>k&1 == 0 {
-				continue
-			}
-			switch k {
-			case 0:
-				a.SetRangeIPv4Min(ip4(r.Bytes("ipv4_min"), r))
-			case 1:
-				a.SetRangeIPv4Max(ip4(r.Bytes("ipv4_max"), r))
-			case 2:
-				a.SetRangeIPv6Min(ip6(r.Bytes("ipv6_min")))
-			case 3:
-				a.SetRangeIPv6Max(ip6(r.Bytes("ipv6_max")))
-			case 4:
-				v := r.U16("proto_min")
-				a.SetRangeProtoMin(&v)
-			case 5:
-				v := r.U16("proto_max")
-				a.SetRangeProtoMax(&v)
-			}
-		}
+		ApplyNATRanges(a, r)
 		return a, nil
 	}
 	return nil, fmt.Errorf("lib: action kind %q has no constructor", r.K)
@@ -548,3 +501,55 @@ func pad6(b []byte) []byte {
 }
 
 var _ = net.IP{}
+
+// ApplyNATRanges calls the NAT action's range setters as the recipe says (order hints, double-set histories).
+func ApplyNATRanges(a *of.NXActionCTNAT, r *rec.Rec) {
+	rp := r.U16("range_present")
+	order := r.Bytes("_order")
+	if len(order) != 6 {
+		order = []byte{0, 1, 2, 3, 4, 5}
+	}
+	if rp%5 == 2 { // a history in which every bound is first set to something else: the last call per bound counts
+		dummy := uint16(0x1234)
+		for _, k := range order {
+			if rp>>k&1 == 0 {
+				continue
+			}
+			switch k {
+			case 0:
+				a.SetRangeIPv4Min(net.IPv4(9, 9, 9, 9))
+			case 1:
+				a.SetRangeIPv4Max(net.IPv4(9, 9, 9, 10))
+			case 2:
+				a.SetRangeIPv6Min(net.ParseIP("2001:db8::1"))
+			case 3:
+				a.SetRangeIPv6Max(net.ParseIP("2001:db8::2"))
+			case 4:
+				a.SetRangeProtoMin(&dummy)
+			case 5:
+				a.SetRangeProtoMax(&dummy)
+			}
+		}
+	}
+	for _, k := range order {
+		if rp>>k&1 == 0 {
+			continue
+		}
+		switch k {
+		case 0:
+			a.SetRangeIPv4Min(ip4(r.Bytes("ipv4_min"), r))
+		case 1:
+			a.SetRangeIPv4Max(ip4(r.Bytes("ipv4_max"), r))
+		case 2:
+			a.SetRangeIPv6Min(ip6(r.Bytes("ipv6_min")))
+		case 3:
+			a.SetRangeIPv6Max(ip6(r.Bytes("ipv6_max")))
+		case 4:
+			v := r.U16("proto_min")
+			a.SetRangeProtoMin(&v)
+		case 5:
+			v := r.U16("proto_max")
+			a.SetRangeProtoMax(&v)
+		}
+	}
+}
